@@ -160,6 +160,29 @@ def run_case(case):
             for st_ in ("f2003", "f2008"):
                 one(src, case, st_, keep, res)
                 n += 1
+    elif case["kind"] == "intrinsics":
+        # every name of the live intrinsic tables of BOTH standards (generic and specific) with
+        # 0 .. max+1 arguments, as a reference and as a CALL argument: tree or FortranSyntaxError
+        for st_ in ("f2003", "f2008"):
+            real.get_parser(st_, force=True)
+            from fparser.two.utils import Base as _B
+            I = _B.subclasses and real.F03.Intrinsic_Name
+            try:
+                from fparser.two.Fortran2008 import Intrinsic_Name as I08
+            except Exception:  # noqa: BLE001
+                I08 = None
+            tab = dict(I.generic_function_names)
+            names = set(tab) | set(I.specific_function_names)
+            if I08 is not None and st_ == "f2008":
+                tab.update(getattr(I08, "generic_function_names", {}))
+                names |= set(getattr(I08, "function_names", [])) | set(getattr(I08, "generic_function_names", {}))
+            for nm in sorted(names)[case["lo"]:case["hi"]]:
+                mx = (tab.get(nm) or {}).get("max")
+                top = min((mx if mx is not None else 3) + 1, 6)
+                for k in range(0, top + 1):
+                    args = ", ".join("a%d" % j for j in range(1, k + 1))
+                    one("program p\n  r = %s(%s)\nend program p\n" % (nm.lower(), args), case, st_, keep, res)
+                    n += 1
     elif case["kind"] == "mutant":
         p = gen.gen_program(case["seed"], std=std, size=0.7)
         base = p.text()
@@ -257,6 +280,7 @@ def run_case(case):
 
 def cases(tier, seed):
     out = [{"kind": "probe", "seed": 0}, {"kind": "utf8", "seed": 0}, {"kind": "scale", "seed": 0, "_timeout": 1500}]
+    out += [{"kind": "intrinsics", "seed": 0, "lo": lo, "hi": lo + 25, "_timeout": 900} for lo in range(0, 225, 25)]
     nb = util.tier_n(tier, 48, 600)
     for i, s in enumerate(util.seeds(seed, nb, 6)):
         out.append({"kind": "mutant", "seed": s, "n": 25, "std": "f2008" if i % 2 else "f2003", "keep": i % 4 == 3, "_timeout": 600})
